@@ -58,7 +58,7 @@ core.import_impl = _safe_import_impl
 # ---------------------------------------------------------------------------------------------------------------
 # dynamic part: re-presentations of the inputs
 
-TAGS = {0: 'C-ordered float64', 1: 'same call repeated (allocator poisoned with different garbage in between)', 2: 'Fortran-ordered',
+TAGS = {0: 'C-ordered float64', 1: 'same call repeated (np.empty returns different garbage, allocator poisoned in between)', 2: 'Fortran-ordered',
         3: 'strided view of a larger array', 4: 'int64', 5: 'negative-stride view',
         6: 'same call after calls of the related functions of the module on sibling inputs (one process; base = the call alone)',
         7: 'same array OBJECTS refilled in place (first used for a sibling curve of the same shape)'}
@@ -692,14 +692,17 @@ def dyn_case(rng, fn, tier, n=None, family=None, j=None, stream='general'):
          'pd': rng.choice(['Kneedle', 'ZScore', 'Significant', 'All']), 'cd': rng.choice(['Increasing', 'Decreasing']),
          'cc': rng.choice(['Counterclockwise', 'Clockwise']), 'detector': rng.choice(['curvature', 'dfdt', 'menger', 'lmethod', 'kneedle'])}
     # thresholds drawn from the values the primitives take on THIS input: the clustering threshold separates two observed knee gaps
-    if len(knees) >= 3 and rng.random() < 0.6:
+    if len(knees) >= 2:
         span = pts[knees[-1]][0] - pts[knees[0]][0]
         gaps = sorted(set((pts[knees[i + 1]][0] - pts[knees[i]][0]) / span for i in range(len(knees) - 1))) if span > 0 else []
-        if len(gaps) >= 2:
+        r_ = rng.random()
+        if len(gaps) >= 2 and r_ < 0.55:
             i_ = rng.randrange(len(gaps) - 1)
-            c['tcl'] = (gaps[i_] + gaps[i_ + 1]) / 2.0
-        elif gaps:
-            c['tcl'] = gaps[0] * rng.choice([0.5, 1.0, 1.5])
+            c['tcl'] = (gaps[i_] + gaps[i_ + 1]) / 2.0          # splits the knees between two observed gap sizes
+        elif gaps and r_ < 0.8:
+            c['tcl'] = gaps[-1] * 1.25                            # one cluster holds all the knees
+        elif gaps and r_ < 0.9:
+            c['tcl'] = gaps[rng.randrange(len(gaps))]             # exactly at an observed gap (the >= boundary)
     c['stream'] = stream
     if j is not None:
         # enumerate, do not sample: the j-th case of a call form takes the j-th combination of the Enum / flag options it reads
@@ -1189,7 +1192,7 @@ class C20:
                 add(fn, 'general')
         # 2. dtype stress: small-integer curves that hug their chord (chord_hug), always presented as int64 AND float64: any intermediate
         # that inherits the input's integer dtype is truncated there and flips sign-based decisions.  Decision-making call forms get the larger share.
-        hug_dec, hug_other = (6, 3) if Q else (40, 12)
+        hug_dec, hug_other = (5, 3) if Q else (40, 12)
         for fn in names:
             for rep in range(hug_dec if is_decision(fn) else hug_other):
                 add(fn, 'chordhug', family='chordhug')
@@ -1220,7 +1223,7 @@ class C20:
         # 6. layout stress: BLAS / SIMD kernels change path with the operand's size and memory order (the np.dot defect D15 shows
         # only for Fortran-ordered operands of 3 or 7 rows, in about 2% of random inputs), so the distance primitives and the
         # simplifiers that slice 3-point sub-curves get many tiny random-double inputs
-        stress = 110 if Q else 1500
+        stress = 85 if Q else 1500
         hot = ['linear_fit.shortest_distance_points', 'linear_fit.shortest_distance_points/inner', 'linear_fit.perpendicular_distance_points',
                'rdp.order_triangle', 'rdp.order_area', 'knee_ranking.distances', 'evaluation.mae']
         for k in range(stress):
